@@ -7,6 +7,7 @@
 import XgiModel.Proto
 import XgiModel.Drive.HG
 import XgiModel.C06.Views
+import XgiModel.C06.DiViews
 open Lean Xgi.Proto
 
 namespace Xgi.C06.Drive
@@ -255,16 +256,140 @@ def load? (j : Json) : Option HG := do
                        nattrK := nodes, eattrK := edges, nattr := ← attrTableOf? j "nattr",
                        eattr := ← attrTableOf? j "eattr" }
 
-def handle (s : HG) (j : Json) : HG × Json :=
+/-! ### directed -/
+
+def diNodeStats (s : DiSt) (p : Params) (view : List PyId) : List (String × StatF) :=
+  [ ("degree", .ok (fun n => .int (s.degree none n))),
+    ("degree_o", .ok (fun n => .int (s.degree p.k n))),
+    ("in_degree", .ok (fun n => .int (s.inDegree none n))),
+    ("in_degree_o", .ok (fun n => .int (s.inDegree p.k n))),
+    ("out_degree", .ok (fun n => .int (s.outDegree none n))),
+    ("out_degree_o", .ok (fun n => .int (s.outDegree p.k n))),
+    ("attr", .ok (fun n => .val (attrGet s.tot .node p.attr p.missing n))),
+    ("attrs", .ok (fun n => .attrs (s.nattr n))) ] ++
+  (match p.w with
+   | none => []
+   | some w => [("degree_w", degreeWF s.tot none w view), ("in_degree_w", degreeWF s.inStat none w view),
+                ("out_degree_ow", degreeWF s.outStat p.k w view)])
+
+def diEdgeStats (s : DiSt) (p : Params) : List (String × StatF) :=
+  [ ("size", .ok (fun e => .int (s.size none e))),
+    ("order", .ok (fun e => .int (s.order none e))),
+    ("size_d", .ok (fun e => .int (s.size p.d e))),
+    ("order_d", .ok (fun e => .int (s.order p.d e))),
+    ("tail_size", .ok (fun e => .int (s.tailSize none e))),
+    ("tail_order", .ok (fun e => .int (s.tailOrder none e))),
+    ("head_size", .ok (fun e => .int (s.headSize none e))),
+    ("head_order", .ok (fun e => .int (s.headOrder none e))),
+    ("tail_size_d", .ok (fun e => .int (s.tailSize p.d e))),
+    ("head_size_d", .ok (fun e => .int (s.headSize p.d e))),
+    ("tail_order_d", .ok (fun e => .int (s.tailOrder p.d e))),
+    ("head_order_d", .ok (fun e => .int (s.headOrder p.d e))),
+    ("attr", .ok (fun e => .val (attrGet s.tot .edge p.attr p.missing e))),
+    ("attrs", .ok (fun e => .attrs (s.eattr e))) ]
+
+/-- the directed observation: views, filters and set-theoretic queries are those of the member-union
+    projection `tot`; the directed stats read their own projections -/
+def dobserve (d : DiSt) (p : Params) : Json :=
+  let s := d.tot
+  let nodes := keys s .node
+  let edges := keys s .edge
+  let no := p.norder.getD nodes
+  let eo := p.eorder.getD edges
+  if ¬ (isPermOf no nodes ∧ isPermOf eo edges) then badOp else
+  let nst := diNodeStats d p nodes
+  let est := diEdgeStats d p
+  let nview := fromView s .node p.nbunch
+  let eview := fromView s .edge p.ebunch
+  let deg : PyId → SV := fun n => .int (d.degree none n)
+  let dego : PyId → SV := fun n => .int (d.degree p.k n)
+  let indeg : PyId → SV := fun n => .int (d.inDegree none n)
+  let outdego : PyId → SV := fun n => .int (d.outDegree p.k n)
+  let sz : PyId → SV := fun e => .int (d.size none e)
+  let ord : PyId → SV := fun e => .int (d.order none e)
+  let szd : PyId → SV := fun e => .int (d.size p.d e)
+  let tsz : PyId → SV := fun e => .int (d.tailSize none e)
+  let hord : PyId → SV := fun e => .int (d.headOrder none e)
+  Json.mkObj [
+    ("out", "ok"),
+    ("nodes", idsToJson nodes), ("edges", idsToJson edges),
+    ("nview", optIds nview), ("eview", optIds eview),
+    ("nstats", Json.mkObj (nst.map (fun st => (st.1, statFJson nodes no st.2)))),
+    ("estats", Json.mkObj (est.map (fun st => (st.1, statFJson edges eo st.2)))),
+    ("nvstats", match nview with
+      | none => Json.str "err:lib"
+      | some v => Json.mkObj ((diNodeStats d p v).map (fun st => (st.1, statFJson v v.reverse st.2)))),
+    ("evstats", match eview with
+      | none => Json.str "err:lib"
+      | some v => Json.mkObj (est.map (fun st => (st.1, statFJson v v.reverse st.2)))),
+    ("nmulti", multiJson nodes (okCols no ["degree", "degree_o", "attr"] nst)),
+    ("emulti", multiJson edges (okCols eo ["size", "order_d", "attr"] est)),
+    ("nfilter", Json.mkObj [("degree", filterIntJson s .node nodes deg p.x p.y),
+                            ("degree_o", filterIntJson s .node nodes dego p.x p.y),
+                            ("in_degree", filterIntJson s .node nodes indeg p.x p.y),
+                            ("out_degree_o", filterIntJson s .node nodes outdego p.x p.y)]),
+    ("efilter", Json.mkObj [("size", filterIntJson s .edge edges sz p.x p.y),
+                            ("order", filterIntJson s .edge edges ord p.x p.y),
+                            ("size_d", filterIntJson s .edge edges szd p.x p.y),
+                            ("tail_size", filterIntJson s .edge edges tsz p.x p.y),
+                            ("head_order", filterIntJson s .edge edges hord p.x p.y)]),
+    ("nvfilter", match nview with
+      | none => Json.str "err:lib"
+      | some v => Json.mkObj [("degree", filterIntJson s .node v deg p.x p.y)]),
+    ("evfilter", match eview with
+      | none => Json.str "err:lib"
+      | some v => Json.mkObj [("size", filterIntJson s .edge v sz p.x p.y)]),
+    ("nfattr", filterAttrJson s .node nodes p),
+    ("efattr", filterAttrJson s .edge edges p),
+    ("nvfattr", match nview with
+      | none => Json.str "err:lib"
+      | some v => filterAttrJson s .node v p),
+    ("nnbr", Json.arr (nodes.map (fun n => Json.arr #[idToJson n, optSet (neighbors s .node n 1),
+        optSet (neighbors s .node n p.sp)])).toArray),
+    ("enbr", Json.arr (edges.map (fun e => Json.arr #[idToJson e, optSet (neighbors s .edge e 1),
+        optSet (neighbors s .edge e p.sp)])).toArray),
+    ("nbr_missing", Json.arr #[optSet (neighbors s .node (.str "$absent") 1), optSet (neighbors s .edge (.str "$absent") 1)]),
+    ("nlookup", idsToJson (lookup s .node p.nlookup)),
+    ("elookup", idsToJson (lookup s .edge p.elookup)),
+    ("ndups", idsToJson (duplicates s .node)),
+    ("edups", idsToJson (duplicates s .edge)),
+    ("isolates", idsToJson (isolates s false)),
+    ("empty", idsToJson (empty s)) ]
+
+/-- install a directed state from its tables -/
+def dload? (j : Json) : Option DiSt := do
+  pure { nodes := ← getIds? j "nodes", edges := ← getIds? j "edges",
+         membIn := ← tableOf? j "membIn", membOut := ← tableOf? j "membOut",
+         tail := ← tableOf? j "tail", head := ← tableOf? j "head",
+         nattr := ← attrTableOf? j "nattr", eattr := ← attrTableOf? j "eattr" }
+
+/-- driver state: the undirected state machine and the installed directed state -/
+structure St where
+  hg : HG
+  di : DiSt
+instance : Inhabited St := ⟨⟨HG.empty, DiSt.empty⟩⟩
+def St.init : St := ⟨HG.empty, DiSt.empty⟩
+
+def handle (st : St) (j : Json) : St × Json :=
   match getStr? j "op" with
   | some "observe" =>
     match params? j with
-    | none => (s, badOp)
-    | some p => (s, observe s p)
+    | none => (st, badOp)
+    | some p => (st, observe st.hg p)
+  | some "dobserve" =>
+    match params? j with
+    | none => (st, badOp)
+    | some p => (st, dobserve st.di p)
   | some "load" =>
     match load? j with
-    | none => (s, badOp)
-    | some s' => (s', Xgi.HG.Drive.respond s' .ok)
-  | _ => Xgi.HG.Drive.handle s j
+    | none => (st, badOp)
+    | some s' => ({ st with hg := s' }, Xgi.HG.Drive.respond s' .ok)
+  | some "dload" =>
+    match dload? j with
+    | none => (st, badOp)
+    | some d => ({ st with di := d }, Json.mkObj [("out", "ok")])
+  | _ =>
+    let r := Xgi.HG.Drive.handle st.hg j
+    ({ st with hg := r.1 }, r.2)
 
 end Xgi.C06.Drive
